@@ -1,4 +1,694 @@
-//! procstream: not built yet.
-pub fn run(args: &vh_common::Args) {
-    vh_common::unknown(args)
+//! ProcStream (C13): the real `ProcessorStream`, `Buffer`, `ComposedProcessors`, `PipelineBuilder`
+//! / `Pipeline` and `StreamLayerExt::layer` of p2panda-stream against spec/ProcStream. Only the
+//! leaf processors, the input stream and the glue between stacked streams are harness-owned.
+//!
+//! A leaf has the shape of `Ingest` / `LogPrune`: `process` awaits something that really suspends
+//! (a tokio timer) and then pushes the item to its queue, `next` pops the queue or waits on a
+//! `Notify`. Everything runs on a current-thread runtime with a paused clock: time advances only
+//! when every task is idle, so the arrival times and per-call processing delays alone decide the
+//! schedule - no wall-clock judgement, no sleeps.
+//!
+//! * `replay`: a TLC behaviour fixes the order of the timer events (item arrivals, completions of
+//!   `process`); the k-th timer event is given the instant k * 10 ms. The run is recorded like a
+//!   `record` run (file `--trace-out`, validated by TLC in the next step), and the outcome is
+//!   judged by the property itself: every input exactly once, in order.
+//! * `record`: seeded random topologies, arrival times and delays.
+//!
+//! A lost item is classified by what the leaves saw: if its last event is "the `process` future
+//! holding it was dropped" at a leaf that is not the first of its group, it was lost in the
+//! hand-over inside `ComposedProcessors::next` (the known defect); anything else is a different
+//! failure.
+use std::cell::{Cell, RefCell};
+use std::collections::{BTreeMap, BTreeSet, VecDeque};
+use std::convert::Infallible;
+use std::pin::Pin;
+use std::rc::Rc;
+use std::time::Duration;
+
+use futures_util::{Stream, StreamExt};
+use p2panda_stream::{PipelineBuilder, Processor, ProcessorExt, StreamLayerExt};
+use tokio::sync::Notify;
+use tokio::time::Instant;
+use vh_common::{Args, Outcome, Rng, TraceWriter, Value, json, read_ndjson, unknown};
+
+pub fn run(args: &Args) {
+    match args.mode.as_str() {
+        "replay" => replay(args),
+        "record" => record(args),
+        _ => unknown(args),
+    }
+}
+
+type Item = u32;
+
+/// What the harness-owned parts see, in program order.
+#[derive(Clone, Debug, PartialEq, Eq)]
+enum Raw {
+    Arrive(Item),
+    ProcStart(usize, Item),
+    ProcDone(usize, Item),
+    ProcAbort(usize, Item),
+    Pop(usize, Item),
+    /// an output of group g-1 is handed to stream g
+    Xfer(usize, Item),
+    #[allow(dead_code)]
+    Yield(Item),
+}
+
+type Log = Rc<RefCell<Vec<Raw>>>;
+
+const NEVER_MS: u64 = 100_000_000; // a `process` call the schedule never completes
+const QUIET_MS: u64 = 10_000_000_000; // nothing happened for this long (paused clock): quiescent
+
+/// Timing of one run: absolute arrival instants, and per leaf the absolute completion instant
+/// of its n-th `process` call (ms since the start).
+#[derive(Clone, Debug, Default)]
+struct Plan {
+    arrivals: Vec<u64>,
+    deadlines: Vec<Vec<u64>>,
+    /// per leaf: delay of its n-th `process` call (used where no absolute instant is planned)
+    delays: Vec<Vec<u64>>,
+    /// delay used when a leaf is called more often than planned (the run left the schedule)
+    fallback_ms: u64,
+}
+
+struct Leaf {
+    idx: usize,
+    queue: RefCell<VecDeque<Item>>,
+    notify: Notify,
+    calls: Cell<usize>,
+    plan: Rc<Plan>,
+    start: Instant,
+    log: Log,
+}
+
+struct AbortGuard<'a> {
+    leaf: &'a Leaf,
+    item: Item,
+    armed: bool,
+}
+
+impl Drop for AbortGuard<'_> {
+    fn drop(&mut self) {
+        if self.armed {
+            self.leaf.log.borrow_mut().push(Raw::ProcAbort(self.leaf.idx, self.item));
+        }
+    }
+}
+
+impl Processor<Item> for Leaf {
+    type Output = Item;
+    type Error = Infallible;
+
+    async fn process(&self, input: Item) -> Result<(), Infallible> {
+        let n = self.calls.get();
+        self.calls.set(n + 1);
+        self.log.borrow_mut().push(Raw::ProcStart(self.idx, input));
+        let mut guard = AbortGuard {
+            leaf: self,
+            item: input,
+            armed: true,
+        };
+        let now = Instant::now();
+        let planned = self.plan.deadlines[self.idx - 1].get(n).copied();
+        let relative = self.plan.delays.get(self.idx - 1).and_then(|d| d.get(n)).copied();
+        let deadline = match (planned, relative) {
+            (Some(ms), _) if self.start + Duration::from_millis(ms) > now => self.start + Duration::from_millis(ms),
+            (None, Some(ms)) => now + Duration::from_millis(ms.max(1)),
+            _ => now + Duration::from_millis(self.plan.fallback_ms.max(1)),
+        };
+        // an await that really suspends (like Ingest's database call)
+        tokio::time::sleep_until(deadline).await;
+        guard.armed = false;
+        self.queue.borrow_mut().push_back(input);
+        self.log.borrow_mut().push(Raw::ProcDone(self.idx, input));
+        self.notify.notify_one();
+        Ok(())
+    }
+
+    async fn next(&self) -> Result<Item, Infallible> {
+        loop {
+            if let Some(item) = self.queue.borrow_mut().pop_front() {
+                self.log.borrow_mut().push(Raw::Pop(self.idx, item));
+                return Ok(item);
+            }
+            self.notify.notified().await;
+        }
+    }
+}
+
+type BoxStream = Pin<Box<dyn Stream<Item = Item>>>;
+
+/// One group = one `.layer(..)` call: a single leaf, or the leaves composed with the real
+/// `PipelineBuilder` (which nests `ComposedProcessors` to the left).
+fn add_group(input: BoxStream, mut leaves: Vec<Leaf>, g: usize, log: Log, via_ext: bool) -> BoxStream {
+    // the stream of group g yields Result<Item, _>; the glue unwraps it and logs the transfer
+    macro_rules! glue {
+        ($s:expr) => {{
+            let log = log.clone();
+            Box::pin($s.filter_map(move |r| {
+                let log = log.clone();
+                async move {
+                    match r {
+                        Ok(item) => {
+                            log.borrow_mut().push(Raw::Xfer(g + 1, item));
+                            Some(item)
+                        }
+                        Err(_) => None,
+                    }
+                }
+            })) as BoxStream
+        }};
+    }
+    match leaves.len() {
+        1 => {
+            let l1 = leaves.remove(0);
+            if via_ext {
+                glue!(l1.into_stream(input))
+            } else {
+                glue!(input.layer(l1))
+            }
+        }
+        2 => {
+            let l1 = leaves.remove(0);
+            let l2 = leaves.remove(0);
+            glue!(input.layer(PipelineBuilder::new().layer(l1).layer(l2).build()))
+        }
+        3 => {
+            let l1 = leaves.remove(0);
+            let l2 = leaves.remove(0);
+            let l3 = leaves.remove(0);
+            glue!(input.layer(PipelineBuilder::new().layer(l1).layer(l2).layer(l3).build()))
+        }
+        4 => {
+            let l1 = leaves.remove(0);
+            let l2 = leaves.remove(0);
+            let l3 = leaves.remove(0);
+            let l4 = leaves.remove(0);
+            glue!(input.layer(PipelineBuilder::new().layer(l1).layer(l2).layer(l3).layer(l4).build()))
+        }
+        n => panic!("unsupported group size {n}"),
+    }
+}
+
+struct RunOut {
+    raw: Vec<Raw>,
+    yielded: Vec<Item>,
+}
+
+/// Runs the real pipeline under a paused clock until nothing can happen any more.
+fn run_pipeline(groups: &[usize], n: usize, plan: Plan, via_ext: bool) -> Result<RunOut, String> {
+    let rt = tokio::runtime::Builder::new_current_thread()
+        .enable_time()
+        .start_paused(true)
+        .build()
+        .expect("runtime");
+    let groups = groups.to_vec();
+    vh_common::catch(move || {
+        let local = tokio::task::LocalSet::new();
+        rt.block_on(local.run_until(async move {
+            let log: Log = Rc::new(RefCell::new(Vec::new()));
+            let start = Instant::now();
+            let plan = Rc::new(plan);
+            // input stream: item i at its planned instant; pending for ever afterwards
+            let src_log = log.clone();
+            let arrivals = plan.arrivals.clone();
+            let source = futures_util::stream::unfold(0usize, move |i| {
+                let src_log = src_log.clone();
+                let arrivals = arrivals.clone();
+                async move {
+                    if i >= n {
+                        std::future::pending::<()>().await;
+                    }
+                    tokio::time::sleep_until(start + Duration::from_millis(arrivals[i])).await;
+                    let item = (i + 1) as Item;
+                    src_log.borrow_mut().push(Raw::Arrive(item));
+                    Some((item, i + 1))
+                }
+            });
+            let mut stream: BoxStream = Box::pin(source);
+            let mut idx = 0;
+            for (g0, size) in groups.iter().enumerate() {
+                let leaves: Vec<Leaf> = (0..*size)
+                    .map(|_| {
+                        idx += 1;
+                        Leaf {
+                            idx,
+                            queue: RefCell::new(VecDeque::new()),
+                            notify: Notify::new(),
+                            calls: Cell::new(0),
+                            plan: plan.clone(),
+                            start,
+                            log: log.clone(),
+                        }
+                    })
+                    .collect();
+                stream = add_group(stream, leaves, g0 + 1, log.clone(), via_ext);
+            }
+            let mut yielded = Vec::new();
+            // quiescence on a paused clock: the only timer left is this timeout
+            while let Ok(Some(item)) = tokio::time::timeout(Duration::from_millis(QUIET_MS), stream.next()).await {
+                // the last glue logged Xfer(NG + 1, item): that is the consumer's Yield
+                yielded.push(item);
+            }
+            drop(stream);
+            let raw = log.borrow().clone();
+            RunOut { raw, yielded }
+        }))
+    })
+}
+
+// ------------------------------------------------------------------------------------------
+// Raw log -> one event per spec action
+
+struct Topo {
+    first: Vec<usize>, // per group (1-based index g-1)
+    last: Vec<usize>,
+    group_of: Vec<usize>, // per leaf (index l-1) -> g
+}
+
+fn topo(groups: &[usize]) -> Topo {
+    let mut first = vec![];
+    let mut last = vec![];
+    let mut group_of = vec![];
+    let mut l = 0;
+    for (g0, size) in groups.iter().enumerate() {
+        first.push(l + 1);
+        for _ in 0..*size {
+            l += 1;
+            group_of.push(g0 + 1);
+        }
+        last.push(l);
+    }
+    Topo { first, last, group_of }
+}
+
+/// Pop(j, x) [ProcAbort] ProcStart(j+1, x)  -> Take;   Pop(last, x) [ProcAbort] -> Output;
+/// [ProcAbort] ProcStart(first, x) -> Input;  ProcDone(first) -> BufDone;  ProcDone(other) -> HandDone.
+fn coalesce(raw: &[Raw], groups: &[usize]) -> Result<Vec<Value>, String> {
+    let t = topo(groups);
+    let ng = groups.len();
+    let mut out = Vec::new();
+    let mut i = 0;
+    // aborts seen and not yet attached (they precede the ProcStart of an Input)
+    let mut pending_abort: Option<(usize, Item)> = None;
+    while i < raw.len() {
+        match &raw[i] {
+            Raw::Arrive(x) => out.push(json!({"ev": "Arrive", "x": x})),
+            Raw::Xfer(g, x) => {
+                if *g == ng + 1 {
+                    out.push(json!({"ev": "Yield", "x": x}));
+                } else {
+                    out.push(json!({"ev": "Xfer", "g": g, "x": x}));
+                }
+            }
+            Raw::Yield(x) => out.push(json!({"ev": "Yield", "x": x})),
+            Raw::ProcAbort(l, x) => {
+                if pending_abort.is_some() {
+                    return Err(format!("two dropped `process` futures in a row at raw event {i}"));
+                }
+                pending_abort = Some((*l, *x));
+            }
+            Raw::ProcStart(l, x) => {
+                let g = t.group_of[*l - 1];
+                if *l != t.first[g - 1] {
+                    return Err(format!("process({x}) of leaf {l} started without a pop of leaf {} before it", l - 1));
+                }
+                let ab = match pending_abort.take() {
+                    Some((al, ax)) if t.group_of[al - 1] == g => ax,
+                    Some((al, _)) => return Err(format!("leaf {al}'s process future dropped by another group's input")),
+                    None => 0,
+                };
+                out.push(json!({"ev": "Input", "g": g, "x": x, "ab": ab}));
+            }
+            Raw::ProcDone(l, x) => {
+                let g = t.group_of[*l - 1];
+                if *l == t.first[g - 1] {
+                    out.push(json!({"ev": "BufDone", "g": g, "x": x}));
+                } else {
+                    out.push(json!({"ev": "HandDone", "g": g, "l": l, "x": x}));
+                }
+            }
+            Raw::Pop(l, x) => {
+                let g = t.group_of[*l - 1];
+                let mut ab = 0;
+                if let Some(Raw::ProcAbort(al, ax)) = raw.get(i + 1) {
+                    if t.group_of[*al - 1] != g {
+                        return Err(format!("leaf {al}'s process future dropped by a pop in another group"));
+                    }
+                    ab = *ax;
+                    i += 1;
+                }
+                if *l == t.last[g - 1] {
+                    out.push(json!({"ev": "Output", "g": g, "x": x, "ab": ab}));
+                } else {
+                    match raw.get(i + 1) {
+                        Some(Raw::ProcStart(l2, x2)) if *l2 == *l + 1 && x2 == x => {
+                            i += 1;
+                            out.push(json!({"ev": "Take", "g": g, "j": l, "x": x, "ab": ab}));
+                        }
+                        other => {
+                            return Err(format!(
+                                "item {x} popped from leaf {l} was not handed to leaf {} (next raw event {other:?})",
+                                l + 1
+                            ));
+                        }
+                    }
+                }
+            }
+        }
+        if pending_abort.is_some() && !matches!(raw[i], Raw::ProcAbort(..)) {
+            return Err(format!("a dropped `process` future is not followed by the step that dropped it ({:?})", raw[i]));
+        }
+        i += 1;
+    }
+    if let Some((l, x)) = pending_abort {
+        // dropped at the very end (the stream itself was dropped): not an event of the run
+        let _ = (l, x);
+    }
+    Ok(out)
+}
+
+// ------------------------------------------------------------------------------------------
+// Property oracle on the implementation's own output
+
+struct Verdict {
+    findings: Vec<(String, String)>, // (signature, detail)
+    lost: BTreeSet<Item>,
+}
+
+fn judge(raw: &[Raw], yielded: &[Item], groups: &[usize], n: usize) -> Verdict {
+    let t = topo(groups);
+    let mut findings = Vec::new();
+    let arrived: BTreeSet<Item> = raw.iter().filter_map(|r| if let Raw::Arrive(x) = r { Some(*x) } else { None }).collect();
+    if arrived.len() != n {
+        findings.push(("input-not-consumed".to_string(), format!("only {arrived:?} of {n} inputs were taken from the input stream")));
+    }
+    // exactly once
+    let mut seen = BTreeSet::new();
+    for x in yielded {
+        if !seen.insert(*x) {
+            findings.push(("output-yielded-twice".into(), format!("item {x} yielded more than once: {yielded:?}")));
+        }
+        if !arrived.contains(x) {
+            findings.push(("output-never-input".into(), format!("item {x} was yielded but never arrived")));
+        }
+    }
+    // order
+    if yielded.windows(2).any(|w| w[0] >= w[1]) {
+        findings.push(("outputs-out-of-order".into(), format!("FIFO leaves, outputs {yielded:?}")));
+    }
+    // losses, classified by the last thing the leaves saw of the item
+    let lost: BTreeSet<Item> = arrived.difference(&seen).cloned().collect();
+    for x in &lost {
+        let last = raw.iter().rev().find(|r| match r {
+            Raw::Arrive(y) | Raw::Yield(y) => y == x,
+            Raw::ProcStart(_, y) | Raw::ProcDone(_, y) | Raw::ProcAbort(_, y) | Raw::Pop(_, y) | Raw::Xfer(_, y) => y == x,
+        });
+        match last {
+            Some(Raw::ProcAbort(l, _)) if *l != t.first[t.group_of[*l - 1] - 1] => {
+                findings.push((
+                    "composed-next-dropped-during-handoff-loses-intermediate".into(),
+                    format!(
+                        "item {x}: ComposedProcessors::next was dropped while awaiting `second.process({x})` of leaf {l} \
+                         (group {}); outputs {yielded:?}",
+                        t.group_of[*l - 1]
+                    ),
+                ));
+            }
+            other => {
+                findings.push((
+                    "item-lost".into(),
+                    format!("item {x} never came out (last seen: {other:?}); outputs {yielded:?}"),
+                ));
+            }
+        }
+    }
+    Verdict { findings, lost }
+}
+
+/// One violation (with its replayable case) per failure class and step; every occurrence is counted.
+fn report_once(out: &mut Outcome, reported: &mut BTreeSet<String>, sig: &str, detail: &str, case: &Value) {
+    out.count(&format!("finding:{sig}"));
+    if reported.insert(sig.to_string()) {
+        out.violation("C13", sig, detail.to_string(), case.clone());
+    }
+}
+
+fn emit_run(tw: &mut TraceWriter, groups: &[usize], n: usize, events: Vec<Value>) {
+    let leaves: usize = groups.iter().sum();
+    tw.event(json!({"ev": "Reset", "groups": groups, "n": n, "leaves": leaves}));
+    for e in events {
+        tw.event(e);
+    }
+}
+
+// ------------------------------------------------------------------------------------------
+// Replay (spec -> impl): the behaviour's order of timer events becomes the timing of the run
+
+fn plan_from_behaviour(b: &Value, groups: &[usize], n: usize) -> Plan {
+    let t = topo(groups);
+    let leaves: usize = groups.iter().sum();
+    let mut plan = Plan {
+        arrivals: vec![0; n],
+        deadlines: vec![Vec::new(); leaves],
+        delays: Vec::new(),
+        fallback_ms: 7,
+    };
+    let mut clock: u64 = 0;
+    // open `process` calls: leaf -> index into deadlines[leaf]
+    let mut open: BTreeMap<usize, usize> = BTreeMap::new();
+    for s in b["steps"].as_array().expect("steps") {
+        let a = s["a"].as_str().unwrap();
+        let timer = matches!(a, "Arrive" | "BufDone" | "HandDone");
+        if timer {
+            clock += 10;
+        }
+        match a {
+            "Arrive" => plan.arrivals[s["x"].as_u64().unwrap() as usize - 1] = clock,
+            "Input" => {
+                let g = s["g"].as_u64().unwrap() as usize;
+                let l = t.first[g - 1];
+                plan.deadlines[l - 1].push(NEVER_MS);
+                open.insert(l, plan.deadlines[l - 1].len() - 1);
+            }
+            "Take" => {
+                let l = s["j"].as_u64().unwrap() as usize + 1;
+                plan.deadlines[l - 1].push(NEVER_MS);
+                open.insert(l, plan.deadlines[l - 1].len() - 1);
+            }
+            "BufDone" => {
+                let g = s["g"].as_u64().unwrap() as usize;
+                let l = t.first[g - 1];
+                if let Some(k) = open.remove(&l) {
+                    plan.deadlines[l - 1][k] = clock;
+                }
+            }
+            "HandDone" => {
+                let l = s["l"].as_u64().unwrap() as usize;
+                if let Some(k) = open.remove(&l) {
+                    plan.deadlines[l - 1][k] = clock;
+                }
+            }
+            _ => {}
+        }
+    }
+    plan
+}
+
+/// The spec's steps in the vocabulary of the recorded events (YieldDone is not observable).
+fn spec_events(b: &Value) -> Vec<Value> {
+    b["steps"]
+        .as_array()
+        .unwrap()
+        .iter()
+        .map(|s| {
+            let mut o = s.as_object().unwrap().clone();
+            let a = o.remove("a").unwrap();
+            o.insert("ev".into(), a);
+            Value::Object(o)
+        })
+        .collect()
+}
+
+fn replay(args: &Args) {
+    let behaviours = read_ndjson(args.input.as_ref().expect("--in"));
+    let mut out = Outcome::new(
+        args,
+        "every TLC behaviour turned into arrival instants / per-call delays (k-th timer event at k*10 ms) and run on the \
+         real ProcessorStream+Buffer+ComposedProcessors under a paused clock; judged by the property (every input exactly \
+         once, in order) and recorded for TLC trace validation; non-trivial = at least 2 inputs; distinct by topology + \
+         timing plan",
+    );
+    let mut tw = args.extra.get("trace-out").map(|p| TraceWriter::create(&std::path::PathBuf::from(p)));
+    let mut reported = BTreeSet::new();
+    for b in &behaviours {
+        out.eval();
+        let groups: Vec<usize> = b["groups"].as_array().unwrap().iter().map(|g| g.as_u64().unwrap() as usize).collect();
+        let n = b["n"].as_u64().unwrap() as usize;
+        let plan = plan_from_behaviour(b, &groups, n);
+        if n >= 2 {
+            out.mark_distinct(format!("{groups:?}|{:?}|{:?}", plan.arrivals, plan.deadlines));
+        }
+        let r = match run_pipeline(&groups, n, plan, false) {
+            Ok(r) => r,
+            Err(p) => {
+                out.violation("C13", "processor-stream-panics", p, b.clone());
+                continue;
+            }
+        };
+        let v = judge(&r.raw, &r.yielded, &groups, n);
+        for (sig, detail) in &v.findings {
+            report_once(&mut out, &mut reported, sig, detail, b);
+        }
+        match coalesce(&r.raw, &groups) {
+            Ok(events) => {
+                // statistics: did the real run take exactly the spec's steps?
+                let exact = events == spec_events(b);
+                out.count(if exact { "reproduced-step-for-step" } else { "left-the-behaviour" });
+                if b["ties"].as_u64() == Some(0) {
+                    out.count(if exact { "tie-free-reproduced" } else { "tie-free-left" });
+                }
+                let spec_lost: BTreeSet<Item> =
+                    b["lost"].as_array().map(|a| a.iter().map(|x| x.as_u64().unwrap() as Item).collect()).unwrap_or_default();
+                if exact && spec_lost != v.lost {
+                    out.violation(
+                        "C13",
+                        "same-steps-different-outcome",
+                        format!("same steps as the spec but lost {:?}, spec lost {:?}", v.lost, spec_lost),
+                        b.clone(),
+                    );
+                }
+                if !v.lost.is_empty() {
+                    out.count("runs-with-loss");
+                }
+                if let Some(tw) = tw.as_mut() {
+                    emit_run(tw, &groups, n, events);
+                }
+                if v.findings.is_empty() {
+                    out.sample(b.clone());
+                }
+            }
+            Err(e) => out.violation("C13", "event-log-not-a-step-sequence", e, b.clone()),
+        }
+    }
+    if let Some(tw) = tw {
+        let (events, runs) = tw.finish();
+        out.set_trace(events, runs);
+    }
+    out.write(args);
+}
+
+// ------------------------------------------------------------------------------------------
+// Record (impl -> spec): random topologies and timings
+
+fn record(args: &Args) {
+    let mut out = Outcome::new(
+        args,
+        "seeded random topologies (1-3 groups of 1-4 leaves), 1-8 inputs, random arrival times and per-call delays on a \
+         paused clock; non-trivial = run in which some input arrived while an earlier item was still inside the pipeline; \
+         distinct by run",
+    );
+    let mut tw = TraceWriter::create(args.out.as_ref().expect("--out"));
+    // the schedule-directed runs recorded by the replay steps are validated in the same TLC run
+    // (one JVM start instead of three)
+    if let Some(list) = args.extra.get("include") {
+        for f in list.split(',').filter(|f| !f.is_empty()) {
+            let path = std::path::PathBuf::from(f);
+            if path.exists() {
+                for e in read_ndjson(&path) {
+                    tw.event(e);
+                }
+                out.count("included-trace-files");
+            } else {
+                eprintln!("include: {f} does not exist");
+                std::process::exit(2);
+            }
+        }
+    }
+    let mut rng = Rng::new(args.seed ^ 0xc13);
+    let runs = if args.n == 0 { 50 } else { args.n };
+    let mut reported = BTreeSet::new();
+    let shapes: Vec<Vec<usize>> = vec![
+        vec![1], vec![2], vec![3], vec![1, 1], vec![2, 1], vec![1, 2], vec![1, 1, 1], vec![2, 2], vec![4], vec![3, 1],
+        vec![1, 3], vec![2, 1, 2],
+    ];
+    for run in 0..runs {
+        out.eval();
+        let groups = rng.pick(&shapes).clone();
+        let leaves: usize = groups.iter().sum();
+        let n = rng.range(1, if args.thorough() { 8 } else { 6 }) as usize;
+        // arrivals: bursts and gaps; delays: short and long, all odd/even-separated to avoid equal instants
+        let mut t = 0u64;
+        let mut arrivals = Vec::new();
+        for _ in 0..n {
+            t += match rng.below(3) {
+                0 => 2 * rng.range(1, 3),
+                1 => 2 * rng.range(4, 15),
+                _ => 2 * rng.range(20, 60),
+            };
+            arrivals.push(t);
+        }
+        // every leaf is consistently fast or slow within a run, with some jitter per call
+        let mut delays = Vec::new();
+        for _ in 0..leaves {
+            let base = match rng.below(3) {
+                0 => 1,
+                1 => rng.range(3, 12),
+                _ => rng.range(20, 80),
+            };
+            delays.push((0..(n + 2)).map(|_| 2 * (base + rng.below(base.min(6) + 1)) + 1).collect::<Vec<u64>>());
+        }
+        let plan = Plan {
+            arrivals,
+            deadlines: vec![Vec::new(); leaves],
+            delays,
+            fallback_ms: 5,
+        };
+        let r = match run_pipeline(&groups, n, plan.clone(), rng.chance(1, 2)) {
+            Ok(r) => r,
+            Err(p) => {
+                out.violation("C13", "processor-stream-panics", p, json!({"groups": groups, "n": n, "run": run}));
+                continue;
+            }
+        };
+        let case = json!({"groups": groups, "n": n, "arrivals": plan.arrivals, "delays": plan.delays, "yielded": r.yielded});
+        let v = judge(&r.raw, &r.yielded, &groups, n);
+        for (sig, detail) in &v.findings {
+            report_once(&mut out, &mut reported, sig, detail, &case);
+        }
+        if !v.lost.is_empty() {
+            out.count("runs-with-loss");
+        }
+        // overlap: an Arrive while an earlier item has not been yielded / lost yet
+        let mut inside = 0i64;
+        let mut overlapped = false;
+        for e in &r.raw {
+            match e {
+                Raw::Arrive(_) => {
+                    if inside > 0 {
+                        overlapped = true;
+                    }
+                    inside += 1;
+                }
+                Raw::Xfer(g, _) if *g == groups.len() + 1 => inside -= 1,
+                _ => {}
+            }
+        }
+        if overlapped {
+            out.mark_distinct(format!("run{run}"));
+        }
+        match coalesce(&r.raw, &groups) {
+            Ok(events) => {
+                emit_run(&mut tw, &groups, n, events);
+                if v.findings.is_empty() {
+                    out.sample(case);
+                }
+            }
+            Err(e) => out.violation("C13", "event-log-not-a-step-sequence", e, case),
+        }
+    }
+    let (events, runs) = tw.finish();
+    out.set_trace(events, runs);
+    out.write(args);
 }
